@@ -2028,6 +2028,10 @@ class subarray : public const_subarray<T, D, ElementPtr, Layout> {
 	BOOST_MULTI_HD constexpr auto transposed() && -> subarray { return const_subarray<T, D, ElementPtr, Layout>::transposed(); }
 	BOOST_MULTI_HD constexpr auto transposed() &  -> subarray { return const_subarray<T, D, ElementPtr, Layout>::transposed(); }
 
+	constexpr auto reversed() const& { return static_cast<const_subarray<T, D, ElementPtr, Layout> const&>(*this).reversed(); }
+	constexpr auto reversed()     && -> subarray { return static_cast<const_subarray<T, D, ElementPtr, Layout>&>(*this).reversed(); }
+	constexpr auto reversed()      & -> subarray { return static_cast<const_subarray<T, D, ElementPtr, Layout>&>(*this).reversed(); }
+
 	// BOOST_MULTI_FRIEND_CONSTEXPR BOOST_MULTI_HD
 	// auto operator~ (subarray const& self) { return self.transposed(); }
 	BOOST_MULTI_FRIEND_CONSTEXPR BOOST_MULTI_HD
